@@ -78,28 +78,144 @@ pub fn emit_data(kind: &'static str, a: u64, b: u64, data: &[u8]) {
     }
 }
 
-/// Marks the interval during which the current thread owns a lock (mode 1 = shared,
-/// 2 = exclusive). Created right after the acquisition and dropped right before the release,
-/// so the logged interval lies inside the real one.
-pub struct LockSpan(&'static str);
+/// Hook sites of the first instrumentation round. Lock ownership is now logged by the lock
+/// types themselves (`locks` below, tied to the real guards), so the spans are inert; the type
+/// stays because the hook sites still name it.
+pub struct LockSpan;
 
 impl LockSpan {
     #[inline]
-    pub fn new(name: &'static str, mode: u64) -> Self {
-        emit("lk", name.as_bytes(), 1, mode, 0);
-        LockSpan(name)
+    pub fn new(_name: &'static str, _mode: u64) -> Self {
+        LockSpan
     }
-    /// For a lock taken by a temporary inside one statement: logged just before the statement.
     #[inline]
-    pub fn around(name: &'static str, mode: u64) -> Self {
-        emit("lk", name.as_bytes(), 1, mode, 1);
-        LockSpan(name)
+    pub fn around(_name: &'static str, _mode: u64) -> Self {
+        LockSpan
     }
 }
 
 impl Drop for LockSpan {
-    fn drop(&mut self) {
-        emit("lk", self.0.as_bytes(), 0, 0, 0);
+    fn drop(&mut self) {}
+}
+
+/// Drop-in replacements for `parking_lot::{RwLock, Mutex}` in the store and write-buffer
+/// modules: same blocking behaviour, plus one `lk` event when the current thread REQUESTS a lock
+/// (a = 1, b = 1 shared / 2 exclusive; logged before blocking, so the nesting that leads into a
+/// deadlock is on record) and one when the guard is dropped (a = 0). The lock is named after its
+/// payload type.
+pub mod locks {
+    use super::emit;
+    use std::ops::{Deref, DerefMut};
+
+    fn name_of<T: ?Sized>() -> &'static str {
+        let t = std::any::type_name::<T>();
+        if t.ends_with("DiskIO") {
+            "device"
+        } else if t.ends_with("FreeSpaceManager") {
+            "free"
+        } else if t.ends_with("Metadata") {
+            "meta"
+        } else if t.contains("VecDeque<") && t.contains("WriteEntry") {
+            "shard"
+        } else if t.contains("Vec<") && t.contains("WriteEntry") {
+            "retq.pending"
+        } else if t == "()" {
+            "retq.flush"
+        } else if t.contains("JoinHandle") {
+            "handles"
+        } else if t.contains("TtlSweeper") {
+            "sweeper"
+        } else {
+            t
+        }
+    }
+
+    pub struct RwLock<T>(parking_lot::RwLock<T>);
+    pub struct ReadGuard<'a, T>(parking_lot::RwLockReadGuard<'a, T>);
+    pub struct WriteGuard<'a, T>(parking_lot::RwLockWriteGuard<'a, T>);
+
+    impl<T> RwLock<T> {
+        pub fn new(value: T) -> Self {
+            RwLock(parking_lot::RwLock::new(value))
+        }
+        pub fn read(&self) -> ReadGuard<'_, T> {
+            emit("lk", name_of::<T>().as_bytes(), 1, 1, 0);
+            ReadGuard(self.0.read())
+        }
+        pub fn write(&self) -> WriteGuard<'_, T> {
+            emit("lk", name_of::<T>().as_bytes(), 1, 2, 0);
+            WriteGuard(self.0.write())
+        }
+        pub fn get_mut(&mut self) -> &mut T {
+            self.0.get_mut()
+        }
+        pub fn into_inner(self) -> T {
+            self.0.into_inner()
+        }
+    }
+
+    impl<T> Deref for ReadGuard<'_, T> {
+        type Target = T;
+        fn deref(&self) -> &T {
+            &self.0
+        }
+    }
+    impl<T> Drop for ReadGuard<'_, T> {
+        fn drop(&mut self) {
+            emit("lk", name_of::<T>().as_bytes(), 0, 0, 0);
+        }
+    }
+    impl<T> Deref for WriteGuard<'_, T> {
+        type Target = T;
+        fn deref(&self) -> &T {
+            &self.0
+        }
+    }
+    impl<T> DerefMut for WriteGuard<'_, T> {
+        fn deref_mut(&mut self) -> &mut T {
+            &mut self.0
+        }
+    }
+    impl<T> Drop for WriteGuard<'_, T> {
+        fn drop(&mut self) {
+            emit("lk", name_of::<T>().as_bytes(), 0, 0, 0);
+        }
+    }
+
+    pub struct Mutex<T>(parking_lot::Mutex<T>);
+    pub struct MutexGuard<'a, T>(parking_lot::MutexGuard<'a, T>);
+
+    impl<T> Mutex<T> {
+        pub fn new(value: T) -> Self {
+            Mutex(parking_lot::Mutex::new(value))
+        }
+        pub fn lock(&self) -> MutexGuard<'_, T> {
+            emit("lk", name_of::<T>().as_bytes(), 1, 2, 0);
+            MutexGuard(self.0.lock())
+        }
+        pub fn get_mut(&mut self) -> &mut T {
+            self.0.get_mut()
+        }
+        pub fn into_inner(self) -> T {
+            self.0.into_inner()
+        }
+    }
+
+    impl<T> Deref for MutexGuard<'_, T> {
+        type Target = T;
+        fn deref(&self) -> &T {
+            &self.0
+        }
+    }
+    impl<T> DerefMut for MutexGuard<'_, T> {
+        fn deref_mut(&mut self) -> &mut T {
+            &mut self.0
+        }
+    }
+    impl<T> Drop for MutexGuard<'_, T> {
+        fn drop(&mut self) {
+            emit("lk", name_of::<T>().as_bytes(), 0, 0, 0);
+        }
     }
 }
 
